@@ -250,7 +250,11 @@ class TdmsSegment(object):
 
         data_objects = [o for o in self.ordered_objects if o.has_data]
         for chunk in self._read_data_chunks(f, data_objects, self.num_chunks):
+            # Other reads may move the file position while this generator is suspended,
+            # so remember where the next chunk starts and return there after yielding.
+            next_chunk_position = f.tell()
             yield chunk
+            f.seek(next_chunk_position)
 
     def read_raw_data_for_channel(self, f, channel_path, chunk_offset=0, num_chunks=None):
         """Read raw data from a TDMS segment
